@@ -5,6 +5,7 @@ import (
 	"fmt"
 	"os"
 	"path/filepath"
+	"strings"
 	"sync/atomic"
 
 	"verifharness/internal/kv"
@@ -134,6 +135,28 @@ func staleHandleScenario(c *sup.Ctx) {
 	if follow != "recreate-same" {
 		if again := get(b, victim); again != nil {
 			stale = append(stale, again)
+		}
+	}
+	if follow == "recreate-same" {
+		// handle B asks for the collection by name NOW, after it was dropped and created again through handle A: what it
+		// gets must be the collection that exists under that name - A's new documents readable, B's writes visible to A
+		c.Count("datastores_fetched_by_name_after_recreation", 1)
+		byName := get(b, victim)
+		full := victim.Scope + "." + victim.Collection
+		det := map[string]any{"disk": disk, "then": follow, "collection": full}
+		if byName == nil {
+			c.Viol([]string{"C11", "C01"}, "stale-handle|by-name-after-recreation|refused", fmt.Sprintf("after handle A dropped and re-created %s, NamedDataStore(%s) through handle B fails", full, full), det)
+		} else {
+			raw, _, gerr := byName.GetRaw("k0")
+			if gerr != nil || !bytesContain(raw, `"new":true`) {
+				c.Viol([]string{"C11", "C01"}, "stale-handle|by-name-after-recreation|read", fmt.Sprintf("after handle A dropped and re-created %s and wrote k0 into it, the DataStore handle B obtains for that name now reads k0 as %q (%v): it is not the collection that exists under that name", full, raw, gerr), det)
+			}
+			werr := byName.SetRaw("via-b", 0, nil, []byte("written through handle B"))
+			if werr != nil {
+				c.Viol([]string{"C11", "C01"}, "stale-handle|by-name-after-recreation|write", fmt.Sprintf("after handle A dropped and re-created %s, a write through the DataStore handle B obtains for that name now fails: %v", full, werr), det)
+			} else if got, _, aerr := collsA[victim.Collection].GetRaw("via-b"); aerr != nil || string(got) != "written through handle B" {
+				c.Viol([]string{"C11", "C01"}, "stale-handle|by-name-after-recreation|write-invisible", fmt.Sprintf("after handle A dropped and re-created %s, a write acknowledged through the DataStore handle B obtained for that name is not readable through handle A: %q (%v)", full, got, aerr), det)
+			}
 		}
 	}
 	// first only look: the dropped collection has no documents any more, whoever asks. Reads and queries through the
@@ -272,3 +295,5 @@ func staleHandleScenario(c *sup.Ctx) {
 	}
 	c.Sample(detail)
 }
+
+func bytesContain(b []byte, sub string) bool { return strings.Contains(string(b), sub) }
